@@ -99,4 +99,15 @@ def exec (immix oneStep : Bool) (s : State) : List (Nat × Bool) → State
   | [] => s
   | (t, d) :: rest => exec immix oneStep (step immix oneStep s t d) rest
 
+/-- `SFT::get_forwarded_object` of `CopySpace` (from-space) and of a movable `ImmixSpace`: a reader that
+is not a tracer (weak-reference / finalizer processing, the binding) — one atomic load of the
+forwarding bits; the pointer is read only when they say `FORWARDED`. -/
+def getForwarded (sh : Shared) : Option Nat :=
+  if sh.bits = FORWARDED then some sh.ptr else none
+
+/-- The same query testing `is_forwarded_or_being_forwarded` instead (NOT the code: used to show the
+difference is observable). -/
+def getForwardedEager (sh : Shared) : Option Nat :=
+  if sh.bits = FORWARDED ∨ sh.bits = BEING_FORWARDED then some sh.ptr else none
+
 end Mmtk.Fwd
